@@ -117,3 +117,70 @@ def c_changes_order(mask: int, s0: str) -> bool:
     d2 = EnvVarDict.from_json({'initial': rev, 'current': dict(reversed(list(current.items())))})
     return R(d1.changes == d2.changes and dict(d1) == dict(d2) and
              sorted(d1.changes) == sorted(k for k in initial if k not in current))
+
+
+# ---- (b') iteration order of every set created inside the ordered-output kernels ----------------
+os.environ['PATH'] = '/venv/bin:' + os.environ.get('PATH', '')
+from vpx import advset
+from bfg9000 import file_types as ft
+from bfg9000 import iterutils
+from bfg9000.builtins import install as binstall
+from bfg9000.backends.make import writer as mwriter
+from bfg9000.builtins import pkg_config as bpc
+from bfg9000 import options as bopts
+
+# the functions whose *ordered* result ends up in a primary build file; every set they create is
+# put under the control of the schedule (a function without sets is unchanged by the rewrite)
+for _owner, _name in ((binstall.InstallOutputs, 'add'), (binstall.InstallOutputs, '_add_implicit'),
+                      (binstall, '_install_files'), (binstall, '_uninstall_files'),
+                      (mwriter, 'directory_deps'), (mwriter, 'multitarget_rule'),
+                      (iterutils, 'uniques'), (bopts.ForwardOptions, 'recurse'),
+                      (bopts.option_list, 'append'), (bopts.option_list, 'collect')):
+    advset.rewrite(_owner, _name)
+# `uniques` uses a set for membership only; keep the rewritten version visible to its importers
+mwriter.uniques = iterutils.uniques
+
+
+def _bp(suffix):
+    p = Path.__new__(Path)
+    p.suffix, p.root, p.directory, p.destdir = suffix, Root.builddir, False, False
+    return p
+
+
+class _IEnv:
+    target_platform = None
+
+
+def o_set_order(rev: bool, n: int) -> bool:
+    """ordered kernels under two schedules of every set they create: the install map (and hence
+    the order of the install / uninstall recipe lines) of a program with n run-time dependencies,
+    and the order-only directory prerequisites of a step with n outputs in different directories
+    pre: 2 <= n <= 4
+    post: _
+    """
+    def run():
+        libs = [ft.SharedLibrary(_bp('lib%d.so' % i), 'elf', 'c') for i in range(4)]
+        prog = ft.Executable(_bp('prog'), 'elf', 'c')
+        for i in range(4):
+            if i < n:
+                prog.runtime_deps.append(libs[i])
+        class E:
+            class target_platform:
+                Path = Path
+        out = binstall.InstallOutputs(E)
+        try:
+            out.add(prog)
+        except Exception:
+            return None
+        order = [f.path.suffix for f in out.host]
+        dirs = [_bp('d%d/out%d' % (i, i)) for i in range(4)][:n]
+        dd = [p.suffix for p in mwriter.directory_deps(dirs)]
+        return order, dd
+    advset.AdvSet.REVERSE = False
+    base = run()
+    advset.AdvSet.REVERSE = bool(rev)
+    try:
+        other = run()
+    finally:
+        advset.AdvSet.REVERSE = False
+    return R(base is not None and base == other and len(base[0]) == n + 1 and len(base[1]) == n)
